@@ -12,6 +12,8 @@ import Driver.C07
 import Driver.C08
 import Driver.C06
 import Driver.C20
+import Driver.C09
+import Driver.C10
 
 open Driver
 
@@ -26,6 +28,8 @@ def dispatch (prop : String) (toks : List String) : String :=
   | "C08" => Driver.C08.handle toks
   | "C06" => Driver.C06.handle toks
   | "C20" => Driver.C20.handle toks
+  | "C09" => Driver.C09.handle toks
+  | "C10" => Driver.C10.handle toks
   | _ => "bad-prop"
 
 partial def loop (hin hout : IO.FS.Stream) : IO Unit := do
